@@ -29,7 +29,10 @@ func readGitConfig(configs ...*git.ConfigurationSource) (gf *GitFetcher, extensi
 		for _, line := range gc.Lines {
 			pieces := strings.SplitN(line, "=", 2)
 			if len(pieces) < 2 {
-				continue
+				// `git config -l` prints a key that was written without
+				// a value ("[lfs] skipdownloaderrors") as the bare key;
+				// to Git that is the boolean true.
+				pieces = append(pieces, "true")
 			}
 
 			allowed := !gc.OnlySafeKeys
